@@ -1,5 +1,6 @@
 import NanoVerif.Model.Tensor
 import NanoVerif.Model.Mask
+import NanoVerif.Model.DatasetGenGradient
 /-
   C08 — model of libnano's in-memory datasource, the identity / pairwise-product feature generators and the
   dataset views (core Lean only; linked into `driver_c08`).
@@ -13,6 +14,8 @@ import NanoVerif.Model.Mask
       - feature selection by type / feature subsets           include/nano/generator/select.h
       - pairing of two feature lists                          src/generator/pairwise_base.cpp:73-110
       - `select` / `flatten` encoders of the generators       include/nano/generator/elemwise.h, pairwise.h, elemwise_identity.h
+      - the gradient generator (fit, descriptors, `process`)   include/nano/generator/elemwise_gradient.h, src/generator/
+                                                              elemwise_gradient.cpp; kernels in Model/DatasetGenGradient.lean
       - drop / shuffle flags                                  src/generator.cpp:24-96
       - bookkeeping `update()`, views, targets, range checks  src/dataset.cpp
   * Abstract: `D : feature → sample → Option value` (`Storage.stored`) and the documented encodings (`spec*`).
@@ -25,17 +28,7 @@ import NanoVerif.Model.Mask
 namespace NanoVerif.Dataset
 open NanoVerif.Tensor NanoVerif.Mask
 
-/-! ## scalars of the dense views -/
-
-/-- what the dense views need from `scalar_t`: conversion of stored values, NaN, `*` (pairwise product) and
-    `2.0 * x - 1.0` (multi-label encoding) -/
-class Scalar (α : Type) where
-  ofInt : Int → α
-  nan : α
-  mul : α → α → α
-  sub : α → α → α
-
-instance : Scalar Float := ⟨Float.ofInt, 0.0 / 0.0, (· * ·), (· - ·)⟩
+/-! ## scalars of the dense views: `Scalar α` (Model/DatasetGenGradient.lean) -/
 
 /-! ## features (include/nano/feature.h) -/
 
@@ -197,11 +190,49 @@ def Storage.inputFeature (st : Storage) (i : Nat) : Option Feature :=
 
 /-! ## generators -/
 
-inductive GKind
-  | sclassId | mclassId | scalarId | structId | product
+/-- the overloads of `select` = the four kinds of generated features (`generator_type`) -/
+inductive Overload
+  | sclass | mclass | scalar | struct
 deriving DecidableEq, Repr, Inhabited
 
-/-- one row of a generator's `m_feature_mapping` (select.h:97-101; pairwise: two such halves side by side) -/
+def Overload.code : Overload → Nat
+  | .sclass => 0 | .mclass => 1 | .scalar => 2 | .struct => 3
+
+/-- the input selections of the generator templates: `elemwise_input_{sclass,mclass,scalar,struct}_t` (elemwise_input.h) and,
+    in pairs, `pairwise_input_<kind1>_<kind2>_t` (pairwise_input.h) -/
+inductive IKind
+  | sclass | mclass | scalar | struct
+deriving DecidableEq, Repr, Inhabited
+
+def IKind.ofCode : Nat → Option IKind
+  | 0 => some .sclass | 1 => some .mclass | 2 => some .scalar | 3 => some .struct | _ => none
+
+/-- the type filter of `call_sclass / call_mclass / call_scalar / call_struct` (select.h:15-66) -/
+def IKind.accepts : IKind → Feature → Bool
+  | .sclass, f => f.isSclass
+  | .mclass, f => f.isMclass
+  | .scalar, f => f.isScalar
+  | .struct, f => f.isStruct
+
+/-- a computer plugged into `elemwise_generator_t<…>` (`in2 = none`) or `pairwise_generator_t<…>` (`in2 = some kind`):
+    any of the 4 + 16 input selections with any of the 4 `generated_type`s (`out`). The library itself instantiates six of these 80 combinations; the others are what user code (and
+    harness/c08.cpp, with the value functions `customOut`) plugs in. -/
+structure Custom where
+  in1 : IKind
+  in2 : Option IKind
+  out : Overload
+deriving DecidableEq, Repr, Inhabited
+
+inductive GKind
+  | sclassId | mclassId | scalarId | structId | product
+  /-- `gradient_generator_t` constructed with the given `kernel3x3_type` (default `sobel`) -/
+  | gradient (k : Kernel3)
+  /-- a harness-defined computer through one of the two generator templates -/
+  | custom (c : Custom)
+deriving DecidableEq, Repr, Inhabited
+
+/-- one row of a generator's `m_feature_mapping` (select.h:97-101; pairwise: two such halves side by side; gradient: the
+    columns 5 and 6 hold the input channel and the `gradient3x3_mode`, elemwise_gradient.cpp:32-38) -/
 structure FMap where
   orig : Nat
   classes : Nat
@@ -209,6 +240,8 @@ structure FMap where
   d1 : Nat
   d2 : Nat
   orig2 : Nat := 0
+  chan : Nat := 0
+  mode : Nat := 0
 deriving DecidableEq, Repr, Inhabited
 
 /-- `generator_t` after `fit`: the mapping, the flags `m_feature_infos` (0 default, 1 drop, 2 shuffle) and the stored
@@ -228,6 +261,8 @@ def kindAccepts (k : GKind) (f : Feature) : Bool :=
   | .scalarId => f.isScalar
   | .structId => f.isStruct
   | .product => f.isScalar
+  | .gradient _ => f.isStruct
+  | .custom c => c.in1.accepts f
 
 /-- `detail::select` (select.h:70-128): the listed input features (all of them for an empty list) that pass the type
     filter, in the given order; `none` for a listed index outside the inputs (assert in `datasource_t::feature`) -/
@@ -236,7 +271,7 @@ def selectFeatures (st : Storage) (accept : Feature → Bool) (list : List Nat) 
   idx.foldr (fun i acc => do
     let rest ← acc
     let f ← st.inputFeature i
-    pure (if accept f then ⟨i, f.classes, f.d0, f.d1, f.d2, 0⟩ :: rest else rest)) (some [])
+    pure (if accept f then ⟨i, f.classes, f.d0, f.d1, f.d2, 0, 0, 0⟩ :: rest else rest)) (some [])
 
 /-- `std::map::try_emplace` on an association list kept sorted by key (lexicographic order of the pairs) -/
 def tryEmplace (k : Nat × Nat) (v : Nat × Nat) : List ((Nat × Nat) × (Nat × Nat)) → List ((Nat × Nat) × (Nat × Nat))
@@ -260,6 +295,16 @@ def makePairwise (m1 m2 : List FMap) : List FMap :=
     let b := m2.getD kv.2.2 default
     { a with orig2 := b.orig })
 
+/-- `elemwise_gradient_t::do_fit` (elemwise_gradient.cpp:6-43) on the rows of `select_struct`: a structured feature with
+    at least 3 rows and 3 columns yields, per input channel (outer loop) and per mode 0..3 (inner loop), one row
+    `(original, classes, 1, rows − 2, cols − 2, channel, mode)`; smaller features yield nothing -/
+def gradientMapping (sel : List FMap) : List FMap :=
+  sel.flatMap (fun s =>
+    if 3 ≤ s.d1 ∧ 3 ≤ s.d2 then
+      (List.range s.d0).flatMap (fun ch => (List.range 4).map (fun ty =>
+        { s with d0 := 1, d1 := s.d1 - 2, d2 := s.d2 - 2, chan := ch, mode := ty }))
+    else [])
+
 /-- `fit` (elemwise_base.cpp:17-22, pairwise_base.cpp:30-35): the mapping, `allocate(features())` zeroes the flags -/
 def fit (st : Storage) (kind : GKind) (list1 list2 : List Nat) : Option Gen := do
   let mapping ← match kind with
@@ -267,10 +312,39 @@ def fit (st : Storage) (kind : GKind) (list1 list2 : List Nat) : Option Gen := d
       let m1 ← selectFeatures st (kindAccepts kind) list1
       let m2 ← selectFeatures st (kindAccepts kind) list2
       pure (makePairwise m1 m2)
+    | .gradient _ => do
+      let sel ← selectFeatures st (kindAccepts kind) list1
+      pure (gradientMapping sel)
+    | .custom c =>
+      match c.in2 with
+      | none => selectFeatures st (kindAccepts kind) list1             -- elemwise_input.cpp
+      | some k2 => do                                                  -- pairwise_input.cpp: make_pairwise of two selections
+        let m1 ← selectFeatures st (kindAccepts kind) list1
+        let m2 ← selectFeatures st k2.accepts list2
+        pure (makePairwise m1 m2)
     | _ => selectFeatures st (kindAccepts kind) list1
   pure ⟨kind, mapping, List.replicate mapping.length 0, []⟩
 
 def Gen.features (g : Gen) : Nat := g.mapping.length
+
+/-- names / kinds of the features of the harness-defined computers, by `generated_type` -/
+def customName (out : Overload) : String :=
+  match out with
+  | .sclass => "lab" | .mclass => "hit" | .scalar => "sum" | .struct => "pow"
+
+/-- `make_sclass_feature` (3 labels) / `make_mclass_feature` (2 labels) / `make_scalar_feature` / `make_struct_feature` with
+    dims `(3, 1, 1)` (elemwise_base.cpp:41-78, pairwise_base.cpp:112-160) -/
+def customDesc (out : Overload) (name : String) : Feature :=
+  match out with
+  | .sclass => ⟨name, .sclass, 1, 1, 1, 3⟩
+  | .mclass => ⟨name, .mclass, 1, 1, 1, 2⟩
+  | .scalar => ⟨name, .float64, 1, 1, 1, 0⟩
+  | .struct => ⟨name, .float64, 3, 1, 1, 0⟩
+
+/-- the `colsize` of the harness-defined computers' `process`: `classes − 1 = 2`, `classes = 2`, `1`, `size(dims) = 3` -/
+def customCols (out : Overload) : Nat :=
+  match out with
+  | .sclass => 2 | .mclass => 2 | .scalar => 1 | .struct => 3
 
 /-- `generator->feature(ifeature)`: the identity generators forward the datasource's descriptor
     (elemwise_identity.cpp), the product names its two sources (`make_scalar_feature`, pairwise_base.cpp:112-123) -/
@@ -281,9 +355,21 @@ def Gen.feature (st : Storage) (g : Gen) (i : Nat) : Option Feature := do
     let f1 ← st.inputFeature m.orig
     let f2 ← st.inputFeature m.orig2
     pure ⟨"product(" ++ f1.name ++ "," ++ f2.name ++ ")", .float64, 1, 1, 1, 0⟩
+  | .gradient k => do
+    -- elemwise_gradient.cpp:45-67: `<kernel>::<mode>(<name>[channel::<c>])`, float64 with the mapped dims
+    let f ← st.inputFeature m.orig
+    pure ⟨k.name ++ gradModeName m.mode ++ "(" ++ f.name ++ "[channel::" ++ toString m.chan ++ "])", .float64,
+      m.d0, m.d1, m.d2, 0⟩
+  | .custom c => do
+    let f1 ← st.inputFeature m.orig
+    match c.in2 with
+    | none => pure (customDesc c.out (customName c.out ++ "(" ++ f1.name ++ ")"))
+    | some _ => do
+      let f2 ← st.inputFeature m.orig2
+      pure (customDesc c.out (customName c.out ++ "(" ++ f1.name ++ "," ++ f2.name ++ ")"))
   | _ => st.inputFeature m.orig
 
-/-- the `colsize` of `process(ifeature)` (elemwise_identity.h, pairwise_product.h) -/
+/-- the `colsize` of `process(ifeature)` (elemwise_identity.h, pairwise_product.h, elemwise_gradient.h:46-48) -/
 def Gen.colsize (g : Gen) (i : Nat) : Nat :=
   let m := g.mapping.getD i default
   match g.kind with
@@ -292,6 +378,14 @@ def Gen.colsize (g : Gen) (i : Nat) : Nat :=
   | .scalarId => 1
   | .structId => m.d0 * m.d1 * m.d2
   | .product => 1
+  | .gradient _ => m.d1 * m.d2
+  | .custom c => customCols c.out
+
+/-- the overload of `do_select` the generator implements (`generated_type`, generator.h:25-43); the other three overloads
+    leave the buffer untouched -/
+def GKind.generated : GKind → Nat
+  | .sclassId => 0 | .mclassId => 1 | .scalarId => 2 | .structId => 3 | .product => 2 | .gradient _ => 3
+  | .custom c => c.out.code
 
 /-- `should_drop` (generator.cpp:65-68) -/
 def Gen.shouldDrop (g : Gen) (i : Nat) : Bool := g.infos.getD i 0 == 1
@@ -323,6 +417,39 @@ def iterate2 (st : Storage) (o1 o2 : Nat) (shuffled samples : List Nat) : List (
     match st.stored (st.inputIndex o1) s', st.stored (st.inputIndex o2) s' with
     | some a, some b => some (a, b)
     | _, _ => none)
+
+/-! ## the value functions of the harness-defined computers (harness/c08.cpp `summary`, `custom_*`) -/
+
+/-- `summary(value)`: `Σ_j (j + 1) * value(j)` over the row-major components, in `int64_t` (a label: the label; a scalar: the
+    value) -/
+def summaryFrom : Nat → List Int → Int
+  | _, [] => 0
+  | j, x :: xs => (Int.ofNat j + 1) * x + summaryFrom (j + 1) xs
+
+def summary (v : List Int) : Int := summaryFrom 0 v
+
+/-- the number the computers work on: `s1` (element-wise), `s1 + 2 * s2` (pair-wise) -/
+def Custom.t (c : Custom) (p : Int × Int) : Int :=
+  match c.in2 with
+  | none => p.1
+  | some _ => p.1 + 2 * p.2
+
+/-- what `process(ifeature)`'s operator yields for the summaries `(s1, s2)` of the input value(s) (`s2 = s1` element-wise),
+    by `generated_type`: the label `t mod 3` (3 labels), the hits `(t even, 3 | t)`, the scalar `t`, the tensor
+    `(s1², s1·s2, s2²)` -/
+def customOut (c : Custom) (p : Int × Int) : List Int :=
+  match c.out with
+  | .sclass => [c.t p % 3]
+  | .mclass => [if c.t p % 2 = 0 then 1 else 0, if c.t p % 3 = 0 then 1 else 0]
+  | .scalar => [c.t p]
+  | .struct => [p.1 * p.1, p.1 * p.2, p.2 * p.2]
+
+/-- the operator's results over the sample list (`none` = a missing input: `given` resp. `given1 && given2` is false,
+    elemwise.h:110-120, pairwise.h:117-127) -/
+def derived (st : Storage) (c : Custom) (m : FMap) (shuffled samples : List Nat) : List (Option (List Int)) :=
+  match c.in2 with
+  | none => (iterate st m.orig shuffled samples).map (fun x => x.map (fun v => customOut c (summary v, summary v)))
+  | some _ => (iterate2 st m.orig m.orig2 shuffled samples).map (fun x => x.map (fun ab => customOut c (summary ab.1, summary ab.2)))
 
 /-! ## views -/
 
@@ -370,6 +497,18 @@ def encProduct (x : Option (List Int × List Int)) : α :=
   | some (a, b) => Scalar.mul (Scalar.ofInt (headI a)) (Scalar.ofInt (headI b))
   | none => Scalar.nan
 
+/-- the tensor / flatten segment the gradient generator's `process` (elemwise_gradient.h:39-53) writes for one sample:
+    `gradient3x3(mode, values.tensor(channel), kernel, map_tensor(storage.data(), rows, cols))` with `values` the sample's
+    `(d0, d1, d2)` tensor of the source feature `src` and `(rows, cols)` the mapped dims; a missing sample is NaN everywhere
+    (elemwise.h:167-171 for `select`, 215-219 for `flatten`). The inner `none` (an `assert` of `tensor(channel)` or of
+    `gradient3x3`) does not occur for a fitted generator (`gradient_pixel_spec`). -/
+def encGradient (k : Kernel3) (src : Feature) (m : FMap) (x : Option (List Int)) : List α :=
+  match x with
+  | some v =>
+    (((⟨[src.d0, src.d1, src.d2], v⟩ : T Int).sub [m.chan]).bind
+      (fun img => gradient3x3 m.mode img (makeKernel k) m.d1 m.d2)).getD []
+  | none => List.replicate (m.d1 * m.d2) Scalar.nan
+
 /-- `generator_t::select(samples, ifeature, storage)` (generator.cpp:103-149) + `do_select` (elemwise.h:22-76,
     pairwise.h:30-84): a dropped feature is all −1 / NaN; `kind` is the overload (the storage type passed by
     `dataset_t::select`); an overload the generator does not produce leaves the buffer untouched — never reached
@@ -395,6 +534,21 @@ def Gen.select (st : Storage) (g : Gen) (i : Nat) (samples : List Nat) : Option 
   | .product =>
     pure (.scalar (if g.shouldDrop i then List.replicate n Scalar.nan
                    else (iterate2 st m.orig m.orig2 sh samples).map encProduct))
+  | .gradient k =>
+    -- `generated_struct_t`: only the structured overload is implemented (see `Dataset.selectUnwritten`)
+    let src := (st.inputFeature m.orig).getD default
+    pure (.struct m.d0 m.d1 m.d2 (if g.shouldDrop i then List.replicate n (List.replicate (m.d0 * m.d1 * m.d2) Scalar.nan)
+                                  else (iterate st m.orig sh samples).map (encGradient k src m)))
+  | .custom c =>
+    -- `select_sclass / select_mclass / select_scalar / select_struct` of the two templates (elemwise.h:105-172,
+    -- pairwise.h:112-179) on the operator's results
+    let vals := derived st c m sh samples
+    match c.out with
+    | .sclass => pure (.sclass (if g.shouldDrop i then List.replicate n (-1) else vals.map encSclass))
+    | .mclass => pure (.mclass 2 (if g.shouldDrop i then List.replicate n (List.replicate 2 (-1)) else vals.map (encMclass 2)))
+    | .scalar => pure (.scalar (if g.shouldDrop i then List.replicate n Scalar.nan else vals.map encScalar))
+    | .struct => pure (.struct 3 1 1 (if g.shouldDrop i then List.replicate n (List.replicate 3 Scalar.nan)
+                                      else vals.map (encStruct 3)))
 
 /-- the segment written by the `flatten` member for one sample (elemwise.h:167-224, pairwise.h:166-222):
     single-label: `setConstant(-1)` then `+1` at `class_index` when `class_index < segment.size()` (so the last class is
@@ -411,6 +565,14 @@ def flatMclass (colsize : Nat) (x : Option (List Int)) : List α :=
   | some v => v.map (fun h => Scalar.sub (Scalar.mul (Scalar.ofInt 2) (Scalar.ofInt h)) (Scalar.ofInt 1))
   | none => List.replicate colsize Scalar.nan
 
+/-- the segment by kind of generated feature -/
+def flatBy (o : Overload) (colsize : Nat) (x : Option (List Int)) : List α :=
+  match o with
+  | .sclass => flatSclass colsize x
+  | .mclass => flatMclass colsize x
+  | .scalar => [encScalar x]
+  | .struct => encStruct colsize x
+
 /-- per-sample segments of generated feature `i` (`colsize` columns each) -/
 def Gen.segments (st : Storage) (g : Gen) (i : Nat) (samples : List Nat) : List (List α) :=
   let m := g.mapping.getD i default
@@ -426,6 +588,11 @@ def Gen.segments (st : Storage) (g : Gen) (i : Nat) (samples : List Nat) : List 
     | .scalarId => (iterate st m.orig sh samples).map (fun x => [encScalar x])
     | .structId => (iterate st m.orig sh samples).map (encStruct colsize)
     | .product => (iterate2 st m.orig m.orig2 sh samples).map (fun x => [encProduct x])
+    | .gradient k =>
+      (iterate st m.orig sh samples).map (encGradient k ((st.inputFeature m.orig).getD default) m)
+    | .custom c =>
+      -- the `flatten` member of the two templates (elemwise.h:174-222, pairwise.h:181-229) on the operator's results
+      (derived st c m sh samples).map (flatBy c.out colsize)
 
 /-- `storage.vector(index).segment(column, colsize) = …` for every row `index` of the buffer -/
 def writeColumns (buf : List (List α)) (column : Nat) (segs : List (List α)) : List (List α) :=
@@ -533,11 +700,6 @@ def Dataset.targetDims (ds : Dataset) : Nat × Nat × Nat :=
     | .mclass => (f.classes, 1, 1)
     | _ => (f.d0, f.d1, f.d2)
 
-/-- the overloads of `select` -/
-inductive Overload
-  | sclass | mclass | scalar | struct
-deriving DecidableEq, Repr
-
 def Overload.matches (o : Overload) (f : Feature) : Bool :=
   match o with
   | .sclass => f.isSclass
@@ -559,6 +721,25 @@ def Dataset.select (ds : Dataset) (samples : List Int) (f : Int) (o : Overload) 
     let g ← ds.gens[gi.1]?
     g.select ds.st gi.2 ss
   else none
+
+/-- **open finding `gradient-1x1-select-unwritten`, modelled as coded**: `dataset_t::select(samples, feature, buffer)` accepts
+    the overload `o` because the descriptor is of that kind, but the owning generator's `do_select` for that overload is the
+    empty `if constexpr` branch (elemwise.h:22-76): the resized buffer comes back unwritten. This happens exactly for the
+    features the gradient generator derives from 3x3 images (dims `(1,1,1)` = a scalar descriptor, `generated_struct_t`):
+    `selectUnwritten_iff`. `selectForeign` is `some dropped` in that situation; there the value of `Dataset.select` (the
+    structured view) is not what the code returns: the driver prints the all-NaN scalar view for a dropped feature and
+    wildcards (contents unspecified) otherwise. -/
+def Dataset.selectForeign (ds : Dataset) (f : Nat) (o : Overload) : Option Bool :=
+  match ds.featMap[f]? with
+  | none => none
+  | some gi =>
+    match ds.gens[gi.1]?, ds.feature f with
+    | some g, some desc => if o.matches desc && g.kind.generated != o.code then some (g.shouldDrop gi.2) else none
+    | _, _ => none
+
+/-- the buffer comes back unwritten: a foreign overload on a feature that is not dropped (for a dropped feature
+    `generator_t::select` fills the buffer with the missing marker before it dispatches, generator.cpp:97-107) -/
+def Dataset.selectUnwritten (ds : Dataset) (f : Nat) (o : Overload) : Bool := ds.selectForeign f o == some false
 
 /-- `dataset_t::flatten(samples, buffer)` (dataset.cpp:336-351): every generator writes its block at
     `offset += m_generator_mapping(index++, 0)`. `buf0` is the (resized, not cleared) buffer: `samples.size()` rows of
